@@ -6,13 +6,16 @@
 
    STATUS: c07_run_at_most_once (NoDup of started tasks), c07_runs_inside_runner_scope and c07_stop_drains are
    theorems, and so is c07_run_once (at most once + only accepted tasks start + on a worker thread), for every
-   configuration, client program, task graph and schedule.  Liveness (stop() eventually returns) is not a theorem (see checks/c07.py).
+   configuration, client program, task graph and schedule.  Liveness: c07_no_deadlock (no reachable deadlock under
+   the usage rules named there) and c07_stop_makes_progress; fairness of the scheduler is what turns this into
+   "stop() eventually returns".  c07_failed_never_runs, c07_inplace*, c07_newthread* cover refused submissions and the
+   two degenerate executors.
    Model-level meaning of the property text: acc_before = tasks whose submission returned while stop() had not been
    called; acc_local = tasks pushed into a local queue (by any task, at any time); finished = callable returned,
    i.e. the future is ready.  In the model every submission to the pool succeeds (enqueue_task returns 0, pinned
    by c07_refused_submission_invalid_future); refusing executors are covered by monitors only. *)
 From Coq Require Import ZArith List Bool.
-Require Import Verif.Gen.Gen_executor Verif.Conc.Machine Verif.EX.EXModel Verif.EX.EXProofs Verif.EX.EXSmallModel Verif.EX.EXSmallProofs.
+Require Import Verif.Gen.Gen_executor Verif.Conc.Machine Verif.EX.EXModel Verif.EX.EXProofs Verif.EX.EXSmallModel Verif.EX.EXSmallProofs Verif.EX.EXLive Verif.EX.EXLive2.
 Import ListNotations.
 
 (* usage rules: at least one worker; every task id is written at one place only (one submit in one program, or
@@ -162,6 +165,40 @@ Print Assumptions c07_refused_submission_invalid_future.
 Theorem c07_memory_order_obligations : orders_ok = true.
 Proof. exact ex_orders_ok. Qed.
 Print Assumptions c07_memory_order_obligations.
+
+(* ---- liveness: stop() returns -------------------------------------------------------------------------------- *)
+(* usage rules (predicates on configuration and programs):
+     queue_cannot_fill c progs = every task id is written at one place, and the global queue (bit_ceil(2 *
+        global_capacity) slots) has room for push_bound c progs tickets = one per submit and wakeup_one_worker, one
+        STOP marker per worker and stop(), two per spawned task (its push and its possible move by the balancer).
+        This excludes the self-blocking case: a task (or the balancer, or a submitter racing with stop()) blocked in
+        push on a full global queue that only its own worker could drain.
+     one_joiner progs = at most one client program waits for the other clients;  some_stop progs = some client calls stop(). *)
+(* while a thread is inside stop() something can always move: stop() cannot get stuck *)
+Theorem c07_stop_makes_progress : forall c progs s, queue_cannot_fill c progs -> Reach c progs s ->
+  (exists t th, nth_error (threads s) t = Some th /\ stop_pc (tpc th) = true) -> exists t, step c s t <> None.
+Proof. exact ex_stop_progress. Qed.
+Print Assumptions c07_stop_makes_progress.
+
+(* no reachable deadlock: in every reachable state either everything has finished or some thread can move *)
+Theorem c07_no_deadlock : forall c progs s, usage c progs -> Reach c progs s -> all_done s = false ->
+  exists t, step c s t <> None.
+Proof. exact ex_no_deadlock. Qed.
+Print Assumptions c07_no_deadlock.
+
+(* the same without the capacity rule, for states in which no pusher is blocked by a full queue *)
+Theorem c07_stop_not_stuck_unless_push_blocked : forall c progs s, Reach c progs s -> no_push_blocked c s ->
+  (exists t th, nth_error (threads s) t = Some th /\ stop_pc (tpc th) = true) -> exists t, step c s t <> None.
+Proof. exact ex_stop_not_stuck. Qed.
+Print Assumptions c07_stop_not_stuck_unless_push_blocked.
+
+Theorem c07_push_tickets_bounded : forall c progs, NoDup (submit_ids progs ++ concat (bodies c)) ->
+  forall s, Reach c progs s -> phi c s <= push_bound c progs.
+Proof. exact ex_phi. Qed.
+Print Assumptions c07_push_tickets_bounded.
+
+Example c07_usage_satisfiable : usage live_cfg live_progs.
+Proof. exact ex_usage_demo. Qed.
 
 (* ---- InplaceExecutor (EXSmallModel.inplace_invoke) ---------------------------------------------------------- *)
 (* invoke runs the task and, re-entrantly, everything it submits to the same executor, inside the caller: at return
